@@ -22,13 +22,15 @@ RULE = ("envelope hierarchies up to depth 3 (created by the real tool) with inte
 NOTE = ["the two regular expressions enter the model as predicates: re.fullmatch is evaluated by Python on every name of the hierarchy",
         "cbor2 load/dump modelled as dec/enc (identity on the canonical envelopes the tool writes)"]
 
-DEP_RES = [None, r"#dep.*", r"nomatch", r".*", r"#dep1_0|#dep2_0"]
+DEP_RES = [None, r"#dep.*", r"nomatch", r".*", r"#dep1_0|#dep2_0", r"#dep\d{1,2}_\d{1,3}", r"#dep[0-9]{1,},?.*"]
 CONFUSABLE = [["#app_bin", "#app.bin"], ["#aab", "#a+b"], ["#fw7", "#fw\\d"], ["#ab", "#a?b", "#a*b"], ["#x", "#x|#y", "#y"],
               ["file:///C:\\images\\update.bin", "#other"], ["#x[1", "#x1"], ["#(", "#)"], ["#a**", "#a"], ["#p$", "#p"], ["#^q", "#q"],
               # for the patterns ALTERNATION below: names that merely begin or end with one alternative
-              ["#app0", "#app0_recovery", "boot#file1", "#file1"]]
+              ["#app0", "#app0_recovery", "boot#file1", "#file1"], ["#a,b", "#a", "b", "#app7"], ["#file12", "#file1234", "#app123"]]
 ALTERNATION = r"#app0|#file1"
-OMIT_RES = [None, r"zzz", r".*", r"#file.*", r"(#app|p)\d", r"http://.*", r"#dep.*", r".*dep1.*|#app.*"]
+OMIT_RES = [None, r"zzz", r".*", r"#file.*", r"(#app|p)\d", r"http://.*", r"#dep.*", r".*dep1.*|#app.*",
+            # one expression is one expression: counted repetitions and literal commas
+            r"#(app|file)\d{1,2}", r"#file[0-9]{1,3}|#app\d{0,2}", r"#a,b|#app.*", r"[#a-z]{2,5}\d"]
 
 
 def members(b: bytes):
@@ -75,7 +77,7 @@ def impl_cache(b, eb, omit, dep, d):
     with open(inp, "wb") as fh:
         fh.write(b)
     try:
-        cmd_cache_create.main(cache_create_subcommand="from_envelope", eb_size=eb, input_envelope=inp, output_envelope=oe, output_file=oc,
+        common.call_main(cmd_cache_create.main, d, cache_create_subcommand="from_envelope", eb_size=eb, input_envelope=inp, output_envelope=oe, output_file=oc,
                               omit_payload_regex=omit, dependency_regex=dep)
         return {"ok": {"cache": open(oc, "rb").read().hex(), "envelope": open(oe, "rb").read().hex()}}
     except BaseException as e:  # noqa
@@ -95,7 +97,7 @@ def impl_extract(b, name, repl, want_file, d):
         with open(rp, "wb") as fh:
             fh.write(repl)
     try:
-        cmd_payload_extract.main(input_envelope=inp, output_envelope=oe, payload_name=name, output_payload_file=op if want_file else None,
+        common.call_main(cmd_payload_extract.main, d, input_envelope=inp, output_envelope=oe, payload_name=name, output_payload_file=op if want_file else None,
                                  payload_replace_path=rp if repl is not None else None)
     except BaseException as e:  # noqa
         return {"err": type(e).__name__}
